@@ -619,6 +619,19 @@ class Sym:
 
     __index__ = __int__
 
+    def __round__(s, ndigits=None):
+        """round() of a symbolic real (Python semantics: nearest integer, ties to even): forks over the small values it can take."""
+        if ndigits not in (None, 0):
+            raise Unsupported("round() with digits on a symbolic value")
+        c = Ctx.cur
+        for v in (0, 1, 2, 3, 4, 5, 6, 7, 8, 9, 10, 11, 12, -1, -2, -3, -4):
+            half = z3.RealVal("1/2")
+            inside = z3.And(s.e > v - half, s.e < v + half)
+            tie = z3.Or(s.e == v - half, s.e == v + half) if v % 2 == 0 else z3.BoolVal(False)
+            if c.branch(z3.Or(inside, tie)):
+                return v
+        raise Unsupported("round() of a symbolic value outside -4..12")
+
     def __neg__(s):
         return Sym(-s.e)
 
@@ -758,9 +771,6 @@ class Sym:
 
     def __float__(s):
         raise Unsupported("float() of a symbolic value outside a shadowed module")
-
-    def __round__(s, n=None):
-        raise Unsupported("round() of a symbolic value")
 
 
 def _defer(f):
